@@ -197,11 +197,21 @@ bool kirsch_bounded_kfifo_queue<T, Policies...>::try_push(value_type value) {
         if (segment_empty(head_old)) {
           // increment head by k
           marked_idx new_head((head_old.get() + _k) % _queue_size, head_old.mark() + 1);
-          _head.compare_exchange_strong(head_old, new_head, std::memory_order_relaxed);
+          if (!_head.compare_exchange_strong(head_old, new_head, std::memory_order_relaxed)) {
+            // head has been changed by some other thread -> we must not move the tail onto
+            // the head segment based on our outdated snapshot
+            continue;
+          }
         } else if (head_old == _head.load(std::memory_order_relaxed)) {
           // queue is full
           return false;
+        } else {
+          continue;
         }
+      } else if (((tail_old.get() + _k) % _queue_size) == head_old.get()) {
+        // the tail would reach the head segment, but head has changed since we read it
+        // -> retry with a fresh snapshot
+        continue;
       }
       // increment tail by k
       marked_idx new_tail((tail_old.get() + _k) % _queue_size, tail_old.mark() + 1);
